@@ -51,7 +51,7 @@ def repo_state():
 
 
 def hash_seeds(seed, n):
-    rng = random.Random(f"hashseeds/{seed}")
+    rng = random.Random(f"hashseeds/{seed}/{os.environ.get('COMASIM_HASHSALT', '')}")
     hs = []
     while len(hs) < n:
         v = rng.randrange(1, 4294967295)
@@ -217,6 +217,9 @@ def check(prop, tier, seed, jobs, worlds=None, wall=None, keep=False):
         if "case" in d and len(samples) < 3 and not rep["violations"]:
             samples.append(sample_of(d))
     probes.update(max_probe)
+    if os.environ.get("COMASIM_DUMP_DIGESTS"):
+        json.dump({f"{d['world']}/{int(d['secondary'])}": d.get("digests", []) for d in lines},
+                  open(os.environ["COMASIM_DUMP_DIGESTS"], "w"))
     # C09: the same world under two interpreter hash seeds
     if prop == "C09":
         byw = collections.defaultdict(list)
@@ -260,7 +263,8 @@ def check(prop, tier, seed, jobs, worlds=None, wall=None, keep=False):
         rp = {"property": prop, "clause": clause, "signature": sig, "detail": v["detail"], "violation": v,
               "seed": seed, "world": d["world"], "tier": tier, "hash_seed": d["hash_seed"], "case": case,
               "occurrences_this_run": len(items), "repo": repo_state(), "minimised": None}
-        path = os.path.join(HERE, "replays", f"{prop}-{clause}-{seed}-{d['world']}.json".replace("/", "_"))
+        sigh = hashlib.sha256(sig.encode()).hexdigest()[:6]
+        path = os.path.join(HERE, "replays", f"{prop}-{clause}-{sigh}-{seed}-{d['world']}.json".replace("/", "_"))
         json.dump(rp, open(path, "w"), indent=1)
         if clause == "hash-seed":
             ok = verify_hash_seed(rp, path, tmp)
